@@ -57,7 +57,13 @@ type Lemma struct {
 	Line int
 }
 
+type Macro struct {
+	Params []string
+	Body   Expr
+}
+
 type ContractSet struct {
+	Macros  map[string]*Macro
 	Fns     map[string]*FnContract
 	Order   []string
 	Lemmas  []*Lemma
@@ -67,7 +73,7 @@ type ContractSet struct {
 var clauseKw = map[string]bool{"func": true, "requires": true, "ensures": true, "loop": true, "calls": true,
 	"tags": true, "safety": true, "boundary": true, "modifies": true, "trusted": true, "pure": true,
 	"bounded": true, "lemma": true, "import": true, "inline": true, "nobody": true, "nullable": true,
-	"fresh": true, "maypanic": true, "end": true}
+	"fresh": true, "maypanic": true, "end": true, "macro": true}
 
 var reTagList = regexp.MustCompile(`^\[([A-Za-z0-9, ]+)\]\s*`)
 var reAtName = regexp.MustCompile(`^@([A-Za-z0-9_.\-]+)\s*`)
@@ -146,7 +152,7 @@ func (cs *ContractSet) ParseContractFile(path, pkgPath string) error {
 				break
 			}
 			c.Src = rest
-			e, err := ParseExpr(rest)
+			e, err := ParseExprM(rest, cs.Macros)
 			if err != nil {
 				return nil, fail("%v in %q", err, rest)
 			}
@@ -154,6 +160,23 @@ func (cs *ContractSet) ParseContractFile(path, pkgPath string) error {
 			return c, nil
 		}
 		switch kw {
+		case "macro":
+			i := strings.Index(rest, "=")
+			m := reFuncSpec.FindStringSubmatch(strings.TrimSpace(rest[:max(i, 0)]))
+			if i < 0 || m == nil {
+				return fail("macro name(params) = expr")
+			}
+			var params []string
+			for _, p := range strings.Split(m[4], ",") {
+				if p = strings.TrimSpace(p); p != "" {
+					params = append(params, p)
+				}
+			}
+			body, err := ParseExprM(strings.TrimSpace(rest[i+1:]), cs.Macros)
+			if err != nil {
+				return fail("%v in macro body", err)
+			}
+			cs.Macros[m[2]] = &Macro{Params: params, Body: body}
 		case "import":
 			f := strings.Fields(rest)
 			if len(f) != 2 {
@@ -191,7 +214,7 @@ func (cs *ContractSet) ParseContractFile(path, pkgPath string) error {
 				rest = rest[len(m[0]):]
 			}
 			lm.Src = rest
-			e, err := ParseExpr(rest)
+			e, err := ParseExprM(rest, cs.Macros)
 			if err != nil {
 				return fail("%v in %q", err, rest)
 			}
@@ -448,16 +471,19 @@ func lexExpr(s string) ([]tok, error) {
 }
 
 type eparser struct {
-	toks []tok
-	pos  int
+	toks   []tok
+	pos    int
+	macros map[string]*Macro
 }
 
-func ParseExpr(s string) (Expr, error) {
+func ParseExpr(s string) (Expr, error) { return ParseExprM(s, nil) }
+
+func ParseExprM(s string, macros map[string]*Macro) (Expr, error) {
 	toks, err := lexExpr(s)
 	if err != nil {
 		return nil, err
 	}
-	p := &eparser{toks: toks}
+	p := &eparser{toks: toks, macros: macros}
 	e, err := p.parseImp()
 	if err != nil {
 		return nil, err
@@ -710,6 +736,15 @@ func (p *eparser) parsePostfix() (Expr, error) {
 			}
 			if name == "old" && len(args) == 1 {
 				x = &EOld{args[0]}
+			} else if m, ok := p.macros[name]; ok {
+				if len(args) != len(m.Params) {
+					return nil, fmt.Errorf("macro %s expects %d arguments", name, len(m.Params))
+				}
+				sub := map[string]Expr{}
+				for i, pn := range m.Params {
+					sub[pn] = args[i]
+				}
+				x = substExpr(m.Body, sub)
 			} else {
 				x = &ECall{name, args}
 			}
@@ -743,6 +778,8 @@ func (p *eparser) parsePrimary() (Expr, error) {
 				}
 				sort := ""
 				if p.peek().kind == "id" && p.peek().val != "in" { // `forall y Str :: ...`
+					sort = p.next().val
+				} else if p.peek().kind == "str" { // `forall a "(Array Int X)" :: ...`
 					sort = p.next().val
 				}
 				vars = append(vars, [2]string{v.val, sort})
@@ -787,4 +824,70 @@ func dottedName(x Expr) string {
 		}
 	}
 	return ""
+}
+
+// substExpr replaces free identifiers by expressions (macro expansion).
+func substExpr(e Expr, sub map[string]Expr) Expr {
+	switch n := e.(type) {
+	case *EIdent:
+		if r, ok := sub[n.Name]; ok {
+			return r
+		}
+		return n
+	case *EUnary:
+		return &EUnary{n.Op, substExpr(n.X, sub)}
+	case *EBinary:
+		return &EBinary{n.Op, substExpr(n.X, sub), substExpr(n.Y, sub)}
+	case *ESel:
+		return &ESel{substExpr(n.X, sub), n.Name}
+	case *EIndex:
+		return &EIndex{substExpr(n.X, sub), substExpr(n.I, sub)}
+	case *ECall:
+		args := make([]Expr, len(n.Args))
+		for i, a := range n.Args {
+			args[i] = substExpr(a, sub)
+		}
+		return &ECall{n.Fn, args}
+	case *EQuant:
+		inner := map[string]Expr{}
+		for k, v := range sub {
+			inner[k] = v
+		}
+		for _, v := range n.Vars {
+			delete(inner, v[0])
+		}
+		return &EQuant{n.Forall, n.Vars, substExpr(n.Body, inner)}
+	case *ECond:
+		return &ECond{substExpr(n.C, sub), substExpr(n.A, sub), substExpr(n.B, sub)}
+	case *EOld:
+		return &EOld{substExpr(n.X, sub)}
+	}
+	return e
+}
+
+// splitConj splits a clause expression into its top-level conjuncts,
+// distributing an outer implication / universal quantifier over them.
+func splitConj(e Expr) []Expr {
+	switch n := e.(type) {
+	case *EBinary:
+		if n.Op == "&&" {
+			return append(splitConj(n.X), splitConj(n.Y)...)
+		}
+		if n.Op == "==>" {
+			var out []Expr
+			for _, c := range splitConj(n.Y) {
+				out = append(out, &EBinary{"==>", n.X, c})
+			}
+			return out
+		}
+	case *EQuant:
+		if n.Forall {
+			var out []Expr
+			for _, c := range splitConj(n.Body) {
+				out = append(out, &EQuant{true, n.Vars, c})
+			}
+			return out
+		}
+	}
+	return []Expr{e}
 }
